@@ -4,7 +4,7 @@ Findings on gsuneido@90de1df (+ verif hook commit only), each repaired by a `fix
   new  a mux message of 0 bytes => assert panic in the reader goroutine (process exit)
   new  ReadCount/WriteCount are always 0 through the client-server protocol ("TODO")
 
-Mutation testing (scratch worktree on top of the fix commits, /tmp/mut/run.py,
+Mutation testing (scratch worktree on top of the fix commits, selftest/mutations/c40_c41_mutants.py,
 `VERIF_SKIP_MC=1 VERIF_REPO=<dir> bin/vcheck C40 quick`, seed 1; "tests" = go test ./dbms/ ./dbms/mux/):
   M1  flush loses the final flag when the buffer is exactly full   tests ok    VIOLATION (Stall)
       (restricted to messages starting with byte 1, otherwise TestMux hangs too)
@@ -34,6 +34,10 @@ META = {
 def _crash(trace, rc, out):
     with open(trace, "a") as f:
         f.write(json.dumps({"e": "Crash", "rc": rc, "msg": out[-400:].replace("\n", " | ")[:400]}) + "\n")
+
+# TLC evaluates the trace actions recursively (continuation passing); with the default 1 MB
+# thread stack the JVM sporadically overflows on these specs ("Java StackOverflowError")
+BIGSTACK = {"JAVA_TOOL_OPTIONS": "-Xss256m"}
 
 
 def run(ctx):
@@ -68,7 +72,7 @@ def run(ctx):
     if nlines == 0:
         raise infra or vlib.Infra("mux driver recorded nothing")
     ctx.sample_trace_lines(trace, 6)
-    res = ctx.tlc_trace("TraceMux.tla", "TraceMux.cfg", trace, timeout=1500)
+    res = ctx.tlc_trace("TraceMux.tla", "TraceMux.cfg", trace, timeout=1500, extra_env=BIGSTACK)
     if not res["accepted"]:
         ctx.report_rejection(trace, res)
         return
@@ -95,7 +99,7 @@ def run(ctx):
     if nlines == 0:
         raise infra or vlib.Infra("csdiff driver recorded nothing")
     ctx.sample_trace_lines(trace2, 4)
-    res = ctx.tlc_trace("TraceCS.tla", "TraceCS.cfg", trace2, timeout=1500)
+    res = ctx.tlc_trace("TraceCS.tla", "TraceCS.cfg", trace2, timeout=1500, extra_env=BIGSTACK)
     if not res["accepted"]:
         ctx.report_rejection(trace2, res)
         return
